@@ -15,7 +15,7 @@ RULE = ("a case = shared link settings (channel, rate, CRC, address width, legal
         "0..5 with six distinct pipe addresses, payload mode (dynamic / static L, optionally per-pipe lengths on the "
         "receiver, per-pipe dynamic masks that agree on the pipes in use, ACK payloads enabled on both ends afterwards), an "
         "optional pre-history of 1..4 payload-mode / auto-ack / ACK-payload / link-setting calls on one or both ends that the configuration "
-        "overrides, and 1..3 send() calls, each a bytes/bytearray buffer of 0..40 bytes or a list/tuple of 1..3 such buffers; "
+        "overrides, and 1..3 send() / write() calls, each a bytes/bytearray buffer of 0..40 bytes or a list/tuple of 1..3 such buffers; "
         "non-trivial = at least one payload delivered AND (static mode with len != L, or pipe >= 2, or list input, or a "
         "bytearray argument); distinct = SHA-1 of the case JSON")
 ASSUMPTIONS = ["delivery is asserted only for compatibly configured ends (DESIGN 2.6); the medium is loss-free",
@@ -214,7 +214,7 @@ def run_case(case, prefix=None):
             objs.append(bytearray(raw) if typ == "bytearray" else bytes(raw))
             befores.append(raw)
             exps.append(expected_payload(raw, dyn, L, lite_t))
-        is_list = call["form"] != "single"
+        is_list = call["form"] not in ("single", "write")
         if "either" in exps:
             res.label("lite-static-unjudged-length")
             continue
@@ -223,7 +223,14 @@ def run_case(case, prefix=None):
         raised = None
         result = None
         try:
-            result = tx.send(arg, ask_no_ack=ana) if ana else tx.send(arg)
+            if call["form"] == "write":
+                # the non-blocking entry point: load + start, then let the transmission finish
+                result = tx.write(arg, ask_no_ack=ana) if ana else tx.write(arg)
+                sim.advance(6 * MS)
+                tx.update()
+                res.label("write()")
+            else:
+                result = tx.send(arg, ask_no_ack=ana) if ana else tx.send(arg)
         except ValueError as e:
             raised = e
         except SimHorizon:
@@ -303,6 +310,9 @@ def run_case(case, prefix=None):
             except SimHorizon:
                 res.fail(P + "/send-does-not-terminate", "reply send()")
                 break
+            except Exception as e:  # noqa: BLE001 - the reply has a valid length for the mode
+                res.fail(exc_signature(P + "/valid-payload-rejected", e), "reply of %d bytes: %r" % (len(reply), e))
+                break
             sim.advance(300 * US)
             back = []
             for _ in range(4):
@@ -364,8 +374,8 @@ def strategy(drv="full", peer="full"):
 
         calls = []
         for _ in range(draw(st.integers(1, 3))):
-            form = draw(st.sampled_from(["single", "single", "list", "tuple"]))
-            n = 1 if form == "single" else draw(st.integers(1, 3))
+            form = draw(st.sampled_from(["single", "single", "list", "tuple", "write"]))
+            n = 1 if form in ("single", "write") else draw(st.integers(1, 3))
             calls.append({"form": form, "items": [buf() for _ in range(n)]})
         c = {"drv": drv, "peer": peer, "ch": draw(st.one_of(st.integers(0, 125), st.sampled_from([0, 76, 125]))),
              "rate": rate, "crc": crc, "aw": aw, "ardc": ardc, "aa": aa, "ana": draw(st.booleans()),
